@@ -959,6 +959,9 @@ class TermCanvas(Canvas):
 
         x, y = position
 
+        # more than the rest of the row cannot be shifted in
+        chars = min(chars, self.width - x)
+
         while chars > 0:
             self.term[y].insert(x, char_spec)
             self.term[y].pop()
@@ -977,6 +980,9 @@ class TermCanvas(Canvas):
             chars = 1
 
         x, y = position
+
+        # more than the rest of the row cannot be removed
+        chars = min(chars, self.width - x)
 
         while chars > 0:
             self.term[y].pop(x)
@@ -1001,6 +1007,9 @@ class TermCanvas(Canvas):
             # outside the scrolling region: ignored
             return
 
+        # more than the rest of the region cannot be pushed out
+        lines = min(lines, self.scrollregion_end - row + 1)
+
         while lines > 0:
             self.term.pop(self.scrollregion_end)
             self.term.insert(row, self.empty_line())
@@ -1023,6 +1032,9 @@ class TermCanvas(Canvas):
         if not self.scrollregion_start <= row <= self.scrollregion_end:
             # outside the scrolling region: ignored
             return
+
+        # more than the rest of the region cannot be removed
+        lines = min(lines, self.scrollregion_end - row + 1)
 
         while lines > 0:
             self.term.pop(row)
